@@ -58,6 +58,10 @@ CHECKS.update({
                 technique="runtime monitoring under injected faults: process death at every durable write (hook H2) in child processes, recovery through the production open path, dumps judged by RefChain",
                 text="For generated histories (forks, invalid blocks, orphan and duplicate arrival) a child process importing the history is killed immediately before / after its k-th durable write (transaction commit or batch write), for every k in the thorough tier (every 5th in quick) plus sampled second crashes during recovery; a recovery child reopens the database through SharedBuilder::new (migration check, InitLoadUnverified), dumps, redelivers everything and dumps again. Oracles: reopen succeeds, the recovered state equals a replay of the reported tip's chain (all C02 columns), the tip is a delivered valid block, no stored block with a judged parent is left unverified, after redelivery the tip is in the arg-max set and equals the uncrashed baseline when unique.",
                 note="Trusted: RocksDB WAL atomicity (a crash is modelled as process death before/after a durable write, not a torn write inside RocksDB). Which thread performs write k depends on real scheduling; every observed recovery is judged on its own."),
+    "C10": dict(engine="freeze", category="fault_enumeration", design="4/C10",
+                technique="runtime monitoring under injected faults: answer vectors of every chain query before / during / after freezing, after restart and after process death at every durable write of the wipe-out (hook H2), compared with answers derived from the RefChain model; freeze pass driven through hook H4",
+                text="Chains of several tiny epochs with forks at heights that become frozen, uncles, proposals and extensions are imported into a path database with the freezer enabled (child processes). The answer vector (block, packed block, header, body, tx hashes, cellbase, uncles, proposals, extension also through the script data loader, transactions with location, ancestors, number index, live cells) is evaluated before freezing, by reader threads during Shared::freeze, after freezing with warm caches, after a second pass, after restart with cold caches, after a crash immediately before/after every durable write of the freeze/wipe-out sequence followed by restart and a further pass, and with the freezer disabled; every vector must equal the answers derived from the model's copies of the blocks. Frozen range: only heights below the model's two-epoch threshold, complete and contiguous, a second pass moves nothing; side-chain blocks survive at unfrozen heights.",
+                note="Trusted: RocksDB WAL atomicity; byte-level cuts of the freezer files are C09's subject (not repeated here); virtual time keeps the node out of IBD."),
     "C15": dict(engine="codec", category="exploration", design="4/C15",
                 technique="runtime monitoring: differential against an independent molecule implementation and hash definitions (oracles/molecule.py) over schema-driven values and mutations",
                 text="Schema-driven random values and single-field/byte/offset mutations for all 127 packed types: strict/compatible acceptance must agree with the independent validator, accepted bytes must be reproduced by a field-by-field rebuild, packed<->JSON round trips, every hash recomputed by the Python oracle from its own parse, cached hashes of views built through every constructor path.",
@@ -95,6 +99,8 @@ engines = [
      "kind_free_text": "API driver + oracles/arith.py exact oracle; harness-miri/arith"},
     {"name": "crash", "path": "harness/vmon/src/engines/crash.rs", "serves_properties": ["C08"],
      "kind_free_text": "parent + crash/recovery child processes; hook H2 (ckb-db durable write counter / abort)"},
+    {"name": "freeze", "path": "harness/vmon/src/engines/freeze.rs", "serves_properties": ["C10"],
+     "kind_free_text": "parent + build/freeze/restart child processes on a path database with freezer; hooks H2, H4"},
     {"name": "pool", "path": "harness/vmon/src/engines/pool.rs", "serves_properties": ["C11", "C12", "C13"],
      "kind_free_text": "real tx-pool service + builder node + RefChain; hook H5"},
     {"name": "codec", "path": "harness/vcodec", "serves_properties": ["C15", "C16"],
